@@ -35,7 +35,7 @@ def alphabet(c, full=True, copyable=True):
 
 
 def exhaustive(variant, caps, depth, full):
-    copyable = variant in "CTP"
+    copyable = variant in "CTPS"
     for c in caps:
         A = alphabet(c, full, copyable)
         pre = "%s n,0,%d %s" % (variant, c, "nl,1,12" if copyable else "n,1,2 eb,1,1 eb,1,2")
@@ -85,10 +85,40 @@ def ctor_cases(variant, caps, faults=False):
                         yield "%s irs,0,%d,%s%s eb,0,9" % (pre, pos, ys, sfx)
 
 
+def forms_cases(variant, caps):
+    """the overloads / value categories / argument forms behind one operation (suffix ~f, same operation for the model):
+    emplace_back / emplace with the native constructor argument as rvalue or lvalue, a temporary element, std::move of a
+    named element, a const element, several constructor arguments; insert / push_back with lvalue, const lvalue,
+    temporary; std::swap of two containers — from every fill level, followed by erase and a value-initialising append"""
+    copyable = variant in "CTPS"
+    for c in caps:
+        for n in range(c + 1):
+            pre = ("%s n,0,%d %s" % (variant, c, " ".join("eb,0,%d" % (k + 1) for k in range(n)))).rstrip()
+            ops = ["eb,0,9~%d" % f for f in range(6)] + ["em,0,%d,9~%d" % (p, f) for p in range(n + 1) for f in range(6)]
+            ops += ["im,0,9~0", "im,0,9~1", "emb,0,1,9~2"]
+            if copyable:
+                ops += ["in,0,9~0", "in,0,9~1", "pb,0,9~0", "pb,0,9~1", "pb,0,9~2"]
+            for o in ops:
+                yield "%s %s er,0,0 ebd,0" % (pre, o)
+            for c2 in (0, 1, 3):
+                for n2 in (0, c2):
+                    other = ("n,1,%d %s" % (c2, " ".join("eb,1,%d" % (k + 5) for k in range(n2)))).rstrip()
+                    yield "%s %s sw,0,1 eb,0,9 er,1,0 sw,1,0 ebd,1" % (pre, other)
+
+
+def large_cases(variant, cap):
+    """capacities beyond the exhaustive range (more than 64 / 255 elements): fill completely, overflow, erase and emplace
+    in the middle and at both ends, copy / move"""
+    fill = " ".join("eb,0,%d" % (k % 9 + 1) for k in range(cap))
+    copyable = variant in "CTPS"
+    tail = "eb,0,1 er,0,%d em,0,%d,7 em,0,0,8 er,0,0 er,0,%d po,0 em,0,%d,6 ebd,0" % (cap // 2, cap // 2, cap - 2, cap - 1)
+    yield "%s n,0,%d %s %s %s" % (variant, cap, fill, tail, "cp,1,0 er,1,1 as,0,1 mv,2,1" if copyable else "mv,1,0 er,1,1 ma,0,1")
+
+
 def before_begin_cases(variant, caps):
     """erase / emplace / range insert at begin()-1 and begin()-2 (for an empty vector also end()-1, end()-2) from every state
     that two operations of the (reduced) alphabet reach, followed by two ordinary operations"""
-    copyable = variant in "CTP"
+    copyable = variant in "CTPS"
     B = ["erb,0,1", "erb,0,2", "emb,0,1,7", "emb,0,2,7"] + (["irb,0,1,7", "irb,0,2,78", "irb,0,1,_"] if copyable else [])
     for c in caps:
         A = alphabet(c, False, copyable)
@@ -181,6 +211,14 @@ class Ref:
             o[i] = dict(cap=len(xs), l=list(xs), mf=False); return "D"
         if name == "de":
             o[i] = None; return "D"
+        if name == "sw":
+            j = a[1]
+            if i == j or o[i] is None or o[j] is None:
+                return "S"
+            if o[i]["mf"] or o[j]["mf"]:
+                return "K"
+            o[i], o[j] = o[j], o[i]
+            return "D"
         if name in ("cp", "mv", "as", "ma"):
             j = a[1]
             if o[j] is None or (name in ("cp", "mv") and i == j) or (name in ("as", "ma") and o[i] is None):
@@ -283,8 +321,8 @@ LISTY = ("nf", "nfl", "nfa", "nfi", "nl", "la", "ir", "irs", "il", "pr", "prs", 
 
 
 def random_case(rng, length, variant=None, malformed=0.03):
-    variant = variant or rng.choice("CCCMTTUPP")
-    copyable = variant in "CTP"
+    variant = variant or rng.choice("CCCMTTUPPSQ")
+    copyable = variant in "CTPS"
     throwing = variant in "TU"
     ref = Ref()
     ops = []
@@ -304,9 +342,9 @@ def random_case(rng, length, variant=None, malformed=0.03):
                 cands += ["ma"] + (["as", "la"] if copyable else [])
             name = rng.choice(cands)
         else:
-            cands = ["eb"] * 4 + ["im", "em", "em", "po", "er", "er", "at", "get", "mv", "ma", "n", "de", "ebd", "ebd", "emd", "erb", "emb"] + \
+            cands = ["eb"] * 4 + ["im", "em", "em", "po", "er", "er", "at", "get", "mv", "ma", "n", "de", "ebd", "ebd", "emd", "erb", "emb", "sw"] + \
                     (["in", "pb", "pr", "pr", "ir", "il", "cp", "as", "la", "nf", "nl",
-                      "ea", "ea", "ea", "ba", "ia", "pa", "irb", "nfl", "nfa", "nfi", "nfv", "irs", "prs"] if copyable else [])
+                      "ea", "ea", "ea", "ba", "ia", "pa", "irb", "sw", "nfl", "nfa", "nfi", "nfv", "irs", "prs"] if copyable else [])
             name = rng.choice(cands)
         size = len(st["l"]) if st else 0
         cap = st["cap"] if st else 0
@@ -323,7 +361,7 @@ def random_case(rng, length, variant=None, malformed=0.03):
             a = [i]
             if name in ("pr", "prs") and not bad and rng.random() < 0.7:
                 xs = xs[: max(0, cap - size)]
-        elif name in ("cp", "mv", "as", "ma"):
+        elif name in ("cp", "mv", "as", "ma", "sw"):
             others = [j for j in range(NPOOL) if j != i and ref.live(j)]
             j = rng.choice(others) if others and not bad else rng.randrange(NPOOL)
             a = [i, j]
@@ -365,10 +403,13 @@ def random_case(rng, length, variant=None, malformed=0.03):
         if bad and not throwing and rng.random() < 0.2:
             plan = 0
         has_list = name in LISTY
-        ops.append(fmt(name, a, xs if has_list else None, plan))
+        word = fmt(name, a, xs if has_list else None, None)
+        if name in ("eb", "em", "in", "im", "pb", "emb") and rng.random() < 0.5:
+            word += "~%d" % rng.randint(0, 5)
+        ops.append(word + ("!%d" % plan if plan is not None else ""))
         # follow the reference only when the step is certainly executed without fault; otherwise stop tracking precisely
         if plan is None and all(x < NPOOL for x in a[:1]) and (copyable or name not in ("nf", "nl", "cp", "as", "la", "in", "pb", "ir", "il", "pr", "ea", "ba", "ia", "pa", "sr", "ps", "irb", "nfl", "nfa", "nfi", "nfv", "irs", "prs")) \
-                and not (name in ("cp", "mv", "as", "ma") and a[1] >= NPOOL) and not (name in ("nl", "la", "il", "nfi") and len(xs) > 5) and not (name == "nfv" and a[2] >= NPOOL) \
+                and not (name in ("cp", "mv", "as", "ma", "sw") and a[1] >= NPOOL) and not (name in ("nl", "la", "il", "nfi") and len(xs) > 5) and not (name == "nfv" and a[2] >= NPOOL) \
                 and not (name == "get" and a[1] > 5):
             ref.step(name, a, xs)
         elif plan is not None and a[0] < NPOOL and name in ("nf", "nfl", "nfa", "nfi", "nfv", "nl", "cp"):
@@ -395,6 +436,9 @@ def malformed_cases():
     yield "M n,0,1 irb,0,1,1 erb,0,1 emb,0,4,1 ebd,0 emd,0,0"
     yield "P nfa,0,9,1234567 nfi,0,9,123456 nfv,0,1,0 nfv,0,1,1 nfv,3,1,0 n,0,1 eb,0,1!0 irs,0,2,1 nfl,0,0,_ nfv,1,0,0 mv,2,0 nfv,1,3,0"
     yield "M nfl,0,1,1 nfa,0,1,1 nfi,0,1,1 n,0,1 nfv,1,1,0 irs,0,0,1 prs,0,1"
+    yield "C sw,0,1 n,0,1 sw,0,1 sw,0,0 n,1,1 sw,0,3 mv,2,0 sw,0,1 sw,1,2 eb,1,1~9 sw,1,2"
+    yield "Q n,0,1 in,0,1 pb,0,1 cp,1,0 nl,1,1 eb,0,1~4 eb,0,2 sw,0,1"
+    yield "T n,0,1 n,1,1 sw,0,1!0"
 
 
 class VecCheck(Check):
@@ -454,5 +498,5 @@ def self_test(n=300, seed=7):
     rng = random.Random(seed)
     for _ in range(n):
         c = random_case(rng, 20)
-        assert re.fullmatch(r"[CMTUP]( [a-z]+(,[0-9_]+)+(![0-9]+)?)*", c), c
+        assert re.fullmatch(r"[CMTUPSQ]( [a-z]+(,[0-9_]+)+(~[0-9])?(![0-9]+)?)*", c), c
     return True
